@@ -14,11 +14,22 @@ WriteMenu == UNION {{[cls |-> Role(t[1], t[2]), ws |-> <<[r |-> t[1], f |-> t[2]
 DoSetValues == \E m \in WriteMenu : SetValues(m.ws)
 DoExport == \E s \in {FALSE} \cup (IF L.seal # <<>> THEN {TRUE} ELSE {}) : Export(s)
 Next == NewObject \/ Template \/ GetConfig \/ LoadConfig \/ DoSetValues \/ DoExport \/ Parse
-Spec == Init /\ [][Next]_vars
-Bounded == TLCGet("level") <= atoi(IOEnv.MC_LEVEL)
+\* bounded by an explicit step counter (TLCGet("level") in a constraint makes the state count depend on the worker schedule)
+VARIABLE steps
+MCInit == Init /\ steps = 0
+More == steps < atoi(IOEnv.MC_LEVEL)
+MCNewObject == More /\ NewObject /\ steps' = steps + 1
+MCTemplate == More /\ Template /\ steps' = steps + 1
+MCGetConfig == More /\ GetConfig /\ steps' = steps + 1
+MCLoadConfig == More /\ LoadConfig /\ steps' = steps + 1
+MCSetValues == More /\ DoSetValues /\ steps' = steps + 1
+MCExport == More /\ DoExport /\ steps' = steps + 1
+MCParse == More /\ Parse /\ steps' = steps + 1
+MCNext == MCNewObject \/ MCTemplate \/ MCGetConfig \/ MCLoadConfig \/ MCSetValues \/ MCExport \/ MCParse
+Spec == MCInit /\ [][MCNext]_<<vars, steps>>
 
 \* ---------------------------------------------------------------- lemmas
-TypeOK == \A r \in Leaves(L) : bits[r] \subseteq AllBits(W(L, r))
+TypeOK == (\A r \in Leaves(L) : bits[r] \subseteq AllBits(W(L, r))) /\ LeafSet(L) = Leaves(L) /\ Computed(L) = {r \in Leaves(L) : Reg(L, r).comp # ""}
 LayoutOK == GroupsConsistent(L)
 \* "computed fields hold in every exported binary"
 ExportedComputedHold == bin.ok => ComputedHold(L, bin.b)
